@@ -175,3 +175,12 @@ def nt_views(ops, impl):
         if op.startswith("vrange") and out not in ("[]", "panic"):
             return True
     return False
+
+
+# predicates of other slices live in pred_*.py next to this file
+import glob as _glob, os as _os, importlib as _importlib
+for _p in sorted(_glob.glob(_os.path.join(_os.path.dirname(_os.path.abspath(__file__)), "pred_*.py"))):
+    _m = _importlib.import_module(_os.path.basename(_p)[:-3])
+    for _k, _v in vars(_m).items():
+        if not _k.startswith("_"):
+            globals().setdefault(_k, _v)
